@@ -45,14 +45,18 @@ func c17Markups(all bool) []pagerMarkup {
 	seps := []string{" ", " | ", "</li><li>"}
 	wraps := [][2]string{{`<div class="pagination">`, `</div>`}, {`<ul class="pager"><li>`, `</li></ul>`}, {`<p>`, `</p>`}, {`<nav><span>`, `</span></nav>`}}
 	curs := []string{"%d", "<strong>%d</strong>", `<span class="current">%d</span>`, "<b>%d</b>", "<em>%d</em>",
-		"[%d]", "(%d)", "-%d-", "%d.", "«%d»", "*%d*", "#%d", `<span class="current">- %d -</span>`}
+		"[%d]", "(%d)", "-%d-", "%d.", "«%d»", "*%d*", "#%d", `<span class="current">- %d -</span>`,
+		// the current page padded with characters that are neither ASCII white space nor punctuation
+		"&nbsp;%d&nbsp;", "&nbsp;|&nbsp;%d&nbsp;|&nbsp;", "\u2009%d\u2009", "\u3000%d\u3000", "\u7b2c%d\u9875"}
 	navs := []string{"", "Prev/Next", "Previous/Next"}
 	var out []pagerMarkup
 	for si, s := range seps {
 		for wi, w := range wraps {
 			for ci, c := range curs {
 				for ni, nv := range navs {
-					if !all && (si+wi+ci+ni)%13 != 0 {
+					// quick tier: every decoration of the current page twice, with varying
+					// separator, wrapper and navigation anchors
+					if !all && !((si == ci%3 && wi == ci%4 && ni == ci%3) || (si == (ci+1)%3 && wi == (ci+2)%4 && ni == (ci+2)%3)) {
 						continue
 					}
 					out = append(out, pagerMarkup{Sep: s, Open: w[0], Close: w[1], Cur: c, Nav: nv})
